@@ -8,11 +8,14 @@ From Onet Require Import Base.Corr Overlay.Robust Corr.C07.
 Definition no_panic (os : list obs) : Prop := forall o, In o os -> ob_out o <> 1.
 Definition nothing_held (os : list obs) : Prop := forall o, In o os -> ob_out o <> 2 /\ ob_locks o = [].
 
+(* the observations of the canary phase: from the first expectation on *)
+Definition phase (x : option expect) (o : obs) (seen : list obs) : list obs :=
+  match x, seen with None, [] => [] | _, _ => o :: seen end.
+
 Inductive canaries_served (runs : bool) : list (op * option expect * bool) -> list obs -> list obs -> Prop :=
-| cs_end_ops : forall os seen, canaries_served runs [] os seen
-| cs_end_obs : forall ops seen, canaries_served runs ops [] seen
+| cs_end : forall seen, canaries_served runs [] [] seen
 | cs_plain : forall o full ops ob os seen,
-    canaries_served runs ops os (ob :: seen) ->
+    canaries_served runs ops os (phase None ob seen) ->
     canaries_served runs ((o, None, full) :: ops) (ob :: os) seen
 | cs_other : forall o e full ops ob os seen,
     is_run_expect e <> runs ->
@@ -27,20 +30,22 @@ Lemma canaries_ok_iff : forall runs ops os seen,
   canaries_ok runs ops os seen = true <-> canaries_served runs ops os seen.
 Proof.
   intros runs ops. induction ops as [|[[o x] full] r IH]; intros os seen.
-  - cbn. split; [constructor|reflexivity].
+  - destruct os; cbn; split; intros H; try constructor; try discriminate; inversion H.
   - destruct os as [|ob os]; cbn [canaries_ok].
-    + split; [constructor|reflexivity].
+    + split; intros H; [discriminate|inversion H].
     + rewrite andb_true_iff, IH. split.
       * intros [Hx Hr]. destruct x as [e|]; [|constructor; exact Hr].
+        assert (Es : match seen with [] => ob :: seen | _ => ob :: seen end = ob :: seen) by (destruct seen; reflexivity).
+        cbn in Hx, Hr. rewrite ?Es in *.
         apply orb_true_iff in Hx as [Hx|Hx].
-        -- apply cs_other; [|exact Hr]. apply negb_true_iff in Hx. intros E. rewrite E in Hx.
+        -- apply cs_other; [|destruct seen; exact Hr]. apply negb_true_iff in Hx. intros E. rewrite E in Hx.
            destruct runs; discriminate.
-        -- apply cs_served; assumption.
+        -- apply cs_served; destruct seen; assumption.
       * intros H. inversion H; subst.
         -- split; [reflexivity|assumption].
-        -- split; [|assumption]. apply orb_true_iff. left. apply negb_true_iff.
+        -- split; [|destruct seen; assumption]. apply orb_true_iff. left. apply negb_true_iff.
            destruct (is_run_expect e), runs; try reflexivity; exfalso; auto.
-        -- split; [|assumption]. apply orb_true_iff. right. assumption.
+        -- split; [|destruct seen; assumption]. apply orb_true_iff. right. destruct seen; assumption.
 Qed.
 
 Lemma app_nil_iff : forall A (l l' : list A), l ++ l' = [] <-> l = [] /\ l' = [].
